@@ -1,6 +1,6 @@
 (* C01 — property theorems only: each restates the full statement and is closed by the lemma proved in Proofs/. *)
 From Coq Require Import ZArith List Bool.
-From NPS Require Import ListAux PySlice NumpySem Scatter BuildIdx XorBroadcast View Index Assign Reduce Scan RaOps Heap Hash HashRun BitArr RLE RLEOps RLE2d DataClass RowsSpec AssignSpec MapSpec Denote Shape BuildIdx.
+From NPS Require Import ListAux PySlice NumpySem Scatter BuildIdx XorBroadcast View Index Assign Reduce Scan RaOps Heap Hash HashRun BitArr RLE RLEOps RLE2d DataClass RowsSpec AssignSpec MapSpec Denote Shape BuildIdx Geometry GeomProof.
 Import ListNotations.
 Open Scope Z_scope.
 
@@ -18,6 +18,71 @@ Theorem C01_geometry_size :
   forall ls : list Z, sh_size (shape_codes ls) = zsum ls.
 Proof. exact geometry_size. Qed.
 Print Assumptions C01_geometry_size.
+
+Theorem C01_build_rows_observers :
+  forall (A : Type) (r : list (list A)),
+       let a := build_rows r in
+       o_rows a = r /\
+       o_len a = zlen r /\
+       o_size a = zlen (concat r) /\
+       o_lengths a = map zlen r /\
+       o_ravel a = concat r /\
+       o_starts a = excl_prefix (map zlen r) /\
+       o_ends a = incl_prefix (map zlen r) /\ o_shape_size a = zlen (concat r).
+Proof. exact build_rows_observers. Qed.
+Print Assumptions C01_build_rows_observers.
+
+Theorem C01_build_flat_accept :
+  forall (A : Type) (d : list A) (ls : list Z),
+       all_nonneg ls ->
+       zsum ls = zlen d ->
+       exists a : fresh A,
+         build_flat d ls = Ok a /\
+         o_rows a = segments d ls /\
+         concat (o_rows a) = d /\ map zlen (o_rows a) = ls /\ o_ravel a = d /\ o_lengths a = ls.
+Proof. exact build_flat_accept. Qed.
+Print Assumptions C01_build_flat_accept.
+
+Theorem C01_build_flat_reject :
+  forall (A : Type) (d : list A) (ls : list Z), zsum ls <> zlen d -> build_flat d ls = Refused.
+Proof. exact build_flat_reject. Qed.
+Print Assumptions C01_build_flat_reject.
+
+Theorem C01_to_numpy_spec :
+  forall (A : Type) (r : list (list A)),
+       o_to_numpy (build_rows r) =
+       match r with
+       | [] => Ok []
+       | x :: _ => if forallb (fun y : list A => zlen y =? zlen x) r then Ok r else Refused
+       end.
+Proof. exact to_numpy_spec. Qed.
+Print Assumptions C01_to_numpy_spec.
+
+Theorem C01_from_numpy_roundtrip :
+  forall (A : Type) (m : list (list A)) (k : Z),
+       0 <= k ->
+       Forall (fun row : list A => zlen row = k) m ->
+       exists a : fresh A, from_numpy m k = Ok a /\ o_rows a = m /\ o_to_numpy a = Ok m.
+Proof. exact from_numpy_roundtrip. Qed.
+Print Assumptions C01_from_numpy_roundtrip.
+
+Theorem C01_legacy_offsets_shape :
+  forall ls : list Z, shape_from_offsets (0 :: cumsum ls) = shape_codes ls.
+Proof. exact legacy_offsets_shape. Qed.
+Print Assumptions C01_legacy_offsets_shape.
+
+Theorem C01_unravel_all :
+  forall ls : list Z,
+       all_nonneg ls -> map (unravel_mi (shape_codes ls)) (ap 0 (zsum ls) 1) = cells_of ls.
+Proof. exact unravel_all. Qed.
+Print Assumptions C01_unravel_all.
+
+Theorem C01_ravel_all :
+  forall ls : list Z,
+       all_nonneg ls ->
+       map (fun ij : Z * Z => ravel_mi (shape_codes ls) (fst ij) (snd ij)) (cells_of ls) = ap 0 (zsum ls) 1.
+Proof. exact ravel_all. Qed.
+Print Assumptions C01_ravel_all.
 
 Theorem C01_build_indices_correct :
   forall (rows : list (Z * Z)) (step : Z),
